@@ -167,6 +167,9 @@ func (st *fragState) apply(op []string, o *hx.Out) {
 					}
 				}
 			}(st.ctx, st.mrecv, st.got)
+			// the collector clean-up loop makes its first pass as soon as it starts; let it finish so that it
+			// cannot race with the scenario (the model allows clean-up at any time, the comparison does not)
+			time.Sleep(3 * time.Millisecond)
 			return fmt.Sprintf("mtu=%d", st.mrecv.MTU())
 		case "mb-tell":
 			err := st.msend[atoi(op[1])].Tell(st.ctx, st.addrs[nFragSenders], p2p.IOVec{hx.UnHex(op[2])})
